@@ -750,6 +750,15 @@ def _sim(num, depth, seed_):
     return r
 
 
+def coverage_actions(r) -> dict:
+    """-coverage 1 per-action counts {action: (distinct, total)}; unlike TLCResult.coverage_actions also the
+    actions TLC prints with the location of the sub-expression behind the module name (the \\E actions)."""
+    res = {}
+    for m in re.finditer(r"<(\w+) line \d+, col \d+ to line \d+, col \d+ of module \w+(?: \([\d ]+\))?>: (\d+):(\d+)", r.out):
+        res[m.group(1)] = (int(m.group(2)), int(m.group(3)))
+    return res
+
+
 DEMOS = [
     ("Demo_Session_subsection_kept.cfg", "SubsectionClearedByStartSection"),
     ("Demo_Session_lists_not_cleared.cfg", "CleanAfterStartPage"),
@@ -849,10 +858,10 @@ def extend(o: Outcome, tier: str) -> None:
     for name, f in (("MC_Session_msgs", f_msgs), ("MC_Session_tables", f_tabs)):
         r = f.result()
         o.add_tlc(name, r)
-        for a, v in r.coverage_actions().items():
+        for a, v in coverage_actions(r).items():
             cov[a] = cov.get(a, 0) + v[1]
     o.extra["session_action_coverage"] = cov
-    never = [a for a, n in cov.items() if n == 0]
+    never = [a for a, n in cov.items() if n == 0] + [a for a in ("DoReStartPage", "DoReStartSection", "DoReStartSubsection") if a not in cov]
     if never:
         raise common.TLCError(f"actions never taken in MC_Session (vacuity): {never}")
     demo = {}
